@@ -119,6 +119,23 @@ func cmdCheck(args []string) {
 	}
 	tSolve0 := time.Now()
 	solverMs := decideAll(pending, timeout, 16, *tier == "thorough")
+	// an "undecided" of the quick tier may be nothing but a timeout under load (sixteen
+	// workers racing three solvers each, possibly next to other checks): the few goals left
+	// undecided get a second, calmer attempt with four times the time before they are reported
+	if *tier != "thorough" {
+		var again []*Obligation
+		for _, o := range pending {
+			if o.Status == "undecided" && len(again) < 12 {
+				o.Status = ""
+				again = append(again, o)
+			}
+		}
+		if len(again) > 0 {
+			for k, ms := range decideAll(again, timeout*4, 4, false) {
+				solverMs[k] += ms
+			}
+		}
+	}
 	tSolve := time.Since(tSolve0).Seconds()
 	decideRegions(v.Regions)
 
